@@ -143,7 +143,11 @@ fn main() {
         rep.finish();
         return;
     }
-    let limb_corpus = args.get("corpus-limb").map(mlverif::gen::read_digit_corpus).unwrap_or_default();
+    let mut limb_corpus = args.get("corpus-limb").map(mlverif::gen::read_digit_corpus).unwrap_or_default();
+    // the interpreters are slow on long inputs: their jobs (and the native twins, which must see the same cases) cap the length
+    let limb_max = args.u64("limb-max-digits", u64::MAX) as usize;
+    let max_digits = args.u64("max-digits", u64::MAX) as usize;
+    limb_corpus.retain(|(d, _)| d.len() <= limb_max);
     rep.extra.insert("limb_structured_corpus_entries".into(), format!("{}", limb_corpus.len()));
     let mut i = 0u64;
     while rep.evals < max {
@@ -223,6 +227,12 @@ fn main() {
             let a = garbage(&rng, n1, style);
             let b = if rng.chance(1, 4) { vec![] } else { garbage(&rng, n2, if rng.chance(1, 2) { style } else { rng.below(8) }) };
             (a, b, pick_exp(&rng), ["bytes_random", "bytes_ff", "bytes_00", "bytes_slash_colon", "digits_with_garbage", "bytes_ge_0x3a", "leading_zeros", "digits_any"][style as usize])
+        };
+        let (int, frac, exp) = if int.len() + frac.len() > max_digits {
+            // (slow interpreters: long inputs are replaced by a short slow-path one)
+            (b"9007199254740993".to_vec(), b"00000000000000000000000000001".to_vec(), 0)
+        } else {
+            (int, frac, exp)
         };
         if announce {
             eprintln!("CASE {}:{}:{}", util::hex(&int), util::hex(&frac), exp);
